@@ -537,10 +537,37 @@ fn c16_clause_plan_second_clause() {
 // ---- EXPERIMENTS (to be removed) ----
 #[kani::proof]
 #[kani::unwind(12)]
+fn x_u2() {
+    let mut m = ObjectMatcher::new();
+    m.insert(sv("id"), MatchValue::Param(sv("i")));
+    let m = ManuallyDrop::new(m);
+    assert!(m.len() == 1, "X");
+}
+#[kani::proof]
+#[kani::unwind(12)]
+fn x_u3() {
+    let mut m = ObjectMatcher::new();
+    m.insert(sv("id"), MatchValue::Param(sv("i")));
+    let m = ManuallyDrop::new(m);
+    assert!(upsert_has_stable_identity_selector(&m), "X");
+}
+#[kani::proof]
+#[kani::unwind(12)]
 #[kani::stub(alloc::fmt::format, stub_format)]
-fn x_u1() {
+fn x_u4() {
     stack_vec!(u = [sv("governance")]);
-    let c = concept_upsert(None, None, Vec::new(), Some(u), Vec::new());
+    let c = ManuallyDrop::new(MutationClause::UpsertConcept(ConceptUpsert {
+        handle: sv("h"),
+        r#match: Some(ObjectMatcher::new()),
+        expect_version: None,
+        set_fields: None,
+        set_attributes: None,
+        set_facets: Vec::new(),
+        unset_attributes: Some(u),
+        unset_facets: Vec::new(),
+        set_structural: None,
+        unset_structural: None,
+    }));
     let r = ManuallyDrop::new(validate_clause(&c));
     assert!(r.is_err(), "X");
 }
